@@ -3,7 +3,7 @@
 (* `bamtagmultiome --consensus --multiprocess` command line) judged by the P-level operators of  *)
 (* PseudoRead.tla.  One event per molecule:                                                      *)
 (*  {"ev":"pseudo","tid":n,"via":"api"|"cli"|"cli_nosrc","maxN":k (-1 = None),"chrom":"chr1",  *)
-(*   "strand":b,"mol":{"SM":..,"RX":..,"DS":site,"TF":fragments},                               *)
+(*   "strand":b,"mol":{"SM","RX","DS":site,"TF":associated+overflow fragments,"af":associated}, *)
 (*   "reads":[{"start":s,"cigar":[{"op","n"}],"seq":[..],"q":[..]},..],   every mapped read      *)
 (*   "ref":{"start":s0,"seq":[..]},                     the reference over the molecule's span  *)
 (*   "records":[{"chrom","start","rev","cigar":[{"op","n"}],"seq":[..],"nq":len(qualities),     *)
@@ -38,7 +38,8 @@ RecOf(j) == [start |-> j.start, cigar |-> j.cigar, seq |-> j.seq, nq |-> j.nq, m
 TagClause(rs, mol) ==
     LET bad(k) == \E i \in DOMAIN rs : ~Has(rs[i].tags, k) \/ rs[i].tags[k] # mol[k]
     IN IF bad("SM") THEN "Inv_C15_Tags_SM" ELSE IF bad("RX") THEN "Inv_C15_Tags_RX"
-       ELSE IF bad("DS") THEN "Inv_C15_Tags_DS" ELSE IF bad("TF") THEN "Inv_C15_Tags_TF" ELSE "ok"
+       ELSE IF bad("DS") THEN "Inv_C15_Tags_DS" ELSE IF bad("TF") THEN "Inv_C15_Tags_TF"
+       ELSE IF \E i \in DOMAIN rs : Has(rs[i].tags, "af") /\ rs[i].tags.af # mol.af THEN "Inv_C15_Tags_af" ELSE "ok"
 
 PseudoVerdict(e) ==
     IF Has(e, "raised") THEN "Inv_C15_Exists_raised_" \o e.raised
@@ -72,7 +73,7 @@ Notes(line, e) ==
             /\ (IF ~cutok THEN Note(line, e.tid, "divergence_split_differs_from_design") ELSE TRUE)
 
 TInit == /\ l = 1
-         /\ ref = <<>> /\ maxN = 0 /\ strand = FALSE /\ nfrag = 0 /\ nreads = 0 /\ open = FALSE /\ conf = <<>>
+         /\ ref = <<>> /\ maxN = 0 /\ strand = FALSE /\ nfrag = 0 /\ nreads = 0 /\ overflow = 0 /\ open = FALSE /\ conf = <<>>
          /\ pc = "trace" /\ calls = <<>> /\ cigar = <<>> /\ ix = 0 /\ refpos = 0 /\ refstart = 0 /\ refend = 0
          /\ pCigar = <<>> /\ pSeq = <<>> /\ recs = <<>> /\ raised = FALSE
 TNext == /\ l <= Len(Log)
